@@ -119,6 +119,9 @@ def check(rec: Rec, cc, bank, branch, account, origin):
 def replay(rec, case):
     import random
     i = case["input"]
+    if i.get("origin") == "synthetic-layouts":
+        synthetic_layouts(rec, case.get("seed", 1), "quick")
+        return
     if "touch" in i.get("origin", ""):
         touch(i["cc"], random.Random(0))      # the case was observed after other uses of the country in the same process
     check(rec, i["cc"], i["bank_code"], i["branch_code"], i["account_code"], i.get("origin", "replay"))
@@ -249,6 +252,81 @@ def shard(arg):
     return rec
 
 
+SYNTHETIC = {
+    # layouts the bundled countries do not have: a reserved position between bank and branch field; branch field before the
+    # bank field; bank and branch far apart with the account in between; fields of width 1
+    "ZZ": {"bban_spec": "4!n1!n4!n10!n", "bban_length": 19, "positions": {"bank_code": [0, 4], "branch_code": [5, 9], "account_code": [9, 19]}},
+    "ZY": {"bban_spec": "3!n4!a8!c", "bban_length": 15, "positions": {"branch_code": [0, 3], "bank_code": [3, 7], "account_code": [7, 15]}},
+    "ZX": {"bban_spec": "2!a10!n2!n", "bban_length": 14, "positions": {"bank_code": [0, 2], "account_code": [2, 12], "branch_code": [12, 14]}},
+    "ZW": {"bban_spec": "1!n1!n12!c", "bban_length": 14, "positions": {"bank_code": [0, 1], "branch_code": [1, 2], "account_code": [2, 14]}},
+}
+
+
+def synthetic_layouts(rec: Rec, seed, tier):
+    """'All countries with published positions' includes countries an overlay adds: a copy of the package with synthetic
+    countries of unusual field layouts answers the same grid of component widths; judged by the same placement model over the
+    effective table."""
+    import random
+    from itertools import product
+    from .. import gens as gens_mod
+    from ..engines.pkgcopy import PackageCopy
+    from ..oracles.core import IbanOracle, load_table, repo_root
+    from . import _shared
+    rng = random.Random(f"{seed}:C08:synthetic")
+    overlay = {}
+    for cc, spec in SYNTHETIC.items():
+        overlay[cc] = {"country": cc, "in_sepa_zone": False, "iban_spec": cc + "2!n" + spec["bban_spec"],
+                       "iban_length": spec["bban_length"] + 4, **spec}
+    with PackageCopy(repo_root(), iban_files={"zz_synthetic.json": overlay}, keep_bundled_bank=True) as pc:
+        eff = IbanOracle(load_table(pc.iban_dir))
+        saved = (_shared._ORACLE, _shared._GEN)
+        _shared._ORACLE, _shared._GEN = eff, gens_mod.Gen(eff)
+        try:
+            cases = []
+            for cc in SYNTHETIC:
+                fi = field_info(cc)
+                w = {k: fi[k][1] - fi[k][0] for k in fi}
+                ws = {k: sorted({0, 1, max(w[k] - 1, 0), w[k], w[k] + 1}) for k in w}
+                ws["bank_code"] = sorted(set(ws["bank_code"]) | {w["bank_code"] + w["branch_code"], w["bank_code"] + w["branch_code"] + 1,
+                                                                  fi["branch_code"][1] - fi["bank_code"][0]})
+                for nb, nr, na in product(ws["bank_code"], ws["branch_code"], ws["account_code"]):
+                    if nb < 0:
+                        continue
+                    b, r, a = conforming(rng, fi["bank_code"][2] + fi["branch_code"][2], nb)[:nb], conforming(rng, fi["branch_code"][2], nr), \
+                        conforming(rng, fi["account_code"][2], na)
+                    cases.append((cc, b, r, a))
+            ops = [{"op": "generate", "cc": cc, "bank_code": b, "account_code": a, "branch_code": r} for cc, b, r, a in cases]
+            res = pc.query(ops)
+            if isinstance(res, dict):
+                rec.fail("copy_import_fails|synthetic-layouts", "generate_total", {"cc": "ZZ", "bank_code": "", "branch_code": "",
+                         "account_code": "", "how": "copy", "origin": "synthetic-layouts"}, "imports", res["import_error"][-300:])
+                return
+            for (cc, b, r, a), out in zip(cases, res):
+                exp = expectation(cc, b, r, a)
+                inp = {"cc": cc, "bank_code": b, "branch_code": r, "account_code": a, "how": "generate", "origin": "synthetic-layouts",
+                       "layout": SYNTHETIC[cc]}
+                rec.case("synthetic-" + ("overlong" if exp["must_raise"] else ("split" if exp.get("split") else "fits")), (cc, b, r, a, "syn"),
+                         {"cc": cc, "bank_code": b, "branch_code": r, "account_code": a, "result": out.get("ok", out.get("err"))})
+                if "crash" in out:
+                    rec.fail(f"escape|{out['crash']}|synthetic-layouts", "generate_total", inp, "IBAN or library error", out)
+                elif "err" in out:
+                    if exp["classes"] is not None and out["err"] not in exp["classes"]:
+                        rec.fail(f"wrong_class|{out['err']}|synthetic-layouts", "overlong_component_error", inp, sorted(exp["classes"]), out)
+                else:
+                    s_ = out["ok"]
+                    if exp["must_raise"]:
+                        rec.fail("no_error|synthetic-layouts|" + exp["why"], "must_raise", inp, "library error (" + exp["why"] + ")", s_)
+                    elif not eff.accept_norm(s_) or s_[:2] != cc:
+                        rec.fail("returned_invalid_iban|synthetic-layouts", "generate_valid", inp, "valid IBAN of " + cc, s_)
+                    else:
+                        for k, (a_, e_, want) in exp["placement"].items():
+                            if s_[4:][a_:e_] != want:
+                                rec.fail(f"component_altered|{k}|synthetic-layouts", "component_in_place", inp, {k: want, "at": [a_, e_]}, s_)
+                                break
+        finally:
+            _shared._ORACLE, _shared._GEN = saved
+
+
 def strategy():
     from hypothesis import strategies as st
     o = oracle()
@@ -285,6 +363,7 @@ def run(ctx):
     ccs = o.countries() + ["XX", "de", "", "ZZ"]
     ctx.pmap(shard, [(cc, ctx.seed, ctx.tier) for cc in ccs])
     ctx.hyp_parallel(strategy, hyp_body, ctx.pick(8000, 400000), name="C08-hyp")
+    synthetic_layouts(ctx.rec, ctx.seed, ctx.tier)
     with_pos = []
     for cc in o.countries():
         pos = o.positions(cc)
@@ -305,5 +384,5 @@ def run(ctx):
         cc for cc in o.countries() if o.positions(cc) and cc not in with_pos)
     ctx.extra["countries_with_positions"] = len(with_pos)
     ctx.extra["success_per_country_min"] = min(ctx.rec.classes.get(f"success-{cc}", 0) for cc in with_pos)
-    ctx.require_classes("grid-overlong", "grid-split", "grid-ok", "draw-ok", "draw-err-overlong", "unknown-or-no-positions",
+    ctx.require_classes("synthetic-fits", "synthetic-split", "synthetic-overlong", "grid-overlong", "grid-split", "grid-ok", "draw-ok", "draw-err-overlong", "unknown-or-no-positions",
                         "component-alien", "component-ws", "component-ws-only", "component-lengthening", "after-touch-ok", "after-touch-err", "hyp-ok", *[f"success-{cc}" for cc in with_pos])
